@@ -2405,6 +2405,10 @@ class unyt_quantity(unyt_array):
         else:
             return unyt_array(self).reshape(shape, order=order)
 
+    def repeat(self, repeats, axis=None):
+        # repeating a scalar gives a 1D array, which cannot be a unyt_quantity
+        return unyt_array(self, name=self.name).repeat(repeats, axis=axis)
+
 
 def _validate_numpy_wrapper_units(v, arrs):
     if not any(isinstance(a, unyt_array) for a in arrs):
